@@ -165,7 +165,8 @@ VARIANTS = [{"kind": "text", "save_as": "empty"}, {"kind": "text", "save_as": "s
             {"kind": "ds_list", "save_as": "empty"}, {"kind": "ds_str", "save_as": "slash"},
             {"kind": "raw", "save_as": "empty"},
             {"kind": "cmd", "save_as": "none", "keep_rc": True}, {"kind": "cmd", "save_as": "rename", "keep_rc": True},
-            {"kind": "ds_list", "save_as": "none", "ctx": True}, {"kind": "ds_str", "save_as": "dir", "ctx": True}]
+            {"kind": "ds_list", "save_as": "none", "ctx": True}, {"kind": "ds_str", "save_as": "dir", "ctx": True},
+            {"kind": "cmd", "save_as": "none", "split": False}]
 
 
 def many_specs():
@@ -264,6 +265,13 @@ def unit_weight(u):
 
 def relation(orig, got):
     """'eq' | 'loaded-1' | 'loaded+1' | None.  orig None = collection could not read it (empty on a host)."""
+    if isinstance(orig, str):
+        # unsplit command output (split=False): collection held ONE string; what is loaded must spell the same text
+        text = got.decode("utf-8", "surrogateescape") if isinstance(got, bytes) else (
+            "\n".join(got) if isinstance(got, list) else None)
+        if text is None:
+            return None
+        return "eq" if text == orig else "loaded-1" if text + "\n" == orig else "loaded+1" if text == orig + "\n" else None
     if isinstance(got, bytes):
         a = b"" if orig is None else orig
         if not isinstance(a, bytes):
@@ -286,19 +294,24 @@ def relation(orig, got):
 def show(content):
     if content is None:
         return None
+    if isinstance(content, str):
+        return {"text": content if len(content) <= 200 else "<%d chars>" % len(content)}
     if isinstance(content, bytes):
         content = content.decode("utf-8", "replace").split("\n")
         tag = "bytes"
     else:
         tag = "lines"
     out = []
-    for l in content:
+    total = len(content)
+    for l in content[:12]:
         if l == B.LONG:
             out.append("@LONG")
         elif len(l) > 60:
             out.append("<%d chars sha1 %s>" % (len(l), hashlib.sha1(l.encode("utf-8", "surrogatepass")).hexdigest()[:10]))
         else:
             out.append(l)
+    if total > 12:
+        out.append("... %d more" % (total - 12))
     return {tag: out}
 
 
@@ -328,6 +341,8 @@ def content_features(spec, orig):
                 break
             n += 1
     feats["trailing_empty_lines"] = n
+    if spec.get("split") is False:
+        feats["unsplit_command_output"] = True
     if spec.get("pool"):
         feats["pool"] = True
         ex = list(_exec_of(spec))
